@@ -1,5 +1,6 @@
 import LentilVerif.Model.Basic
 import LentilVerif.Gen.FieldIdx
+import LentilVerif.Gen.FieldMerge
 /-! Executable model of `lentil/field.py` (Field.__mul__, merge, reduce, insert), generic in the value type.
 Index arithmetic comes from the generated kernel (`Gen.*`); the array plumbing is written by hand and tied to the
 implementation by the correspondence harness (tools/harness/c06.py). Mathlib-free. -/
@@ -71,12 +72,12 @@ def mergeL [Add K] [Zero K] (fs : List (Fld K)) : Option (Fld K) :=
   | some shp =>
     let off := Gen.mergeOffset b.rmin b.rmax b.cmin b.cmax
     some { arr := { s0 := shp.1, s1 := shp.2,
-                    -- out[slc] += field.data with slc = (frmin-rmin : frmax-rmin+1, fcmin-cmin : fcmax-cmin+1)
+                    -- out[slc] += field.data with slc = the generated `_merge_slices` step (row, col)
                     get := fun i j => sumList fs fun f =>
                       let e := f.extent
-                      if decide (e.rmin - b.rmin ≤ i) && decide (i < e.rmax - b.rmin + 1) &&
-                         decide (e.cmin - b.cmin ≤ j) && decide (j < e.cmax - b.cmin + 1)
-                      then f.arr.get (i - (e.rmin - b.rmin)) (j - (e.cmin - b.cmin)) else 0 },
+                      let sl := Gen.mergeSlice b.rmin b.rmax b.cmin b.cmax e.rmin e.rmax e.cmin e.cmax
+                      if decide (sl.1.1 ≤ i) && decide (i < sl.1.2) && decide (sl.2.1 ≤ j) && decide (j < sl.2.2)
+                      then f.arr.get (i - sl.1.1) (j - sl.2.1) else 0 },
            o0 := off.1, o1 := off.2 }
 
 /-- a group of `_reduce`: the member fields and the cached group extent -/
